@@ -1,15 +1,18 @@
 (* C02 — soundness: the constraints determine every result uniquely from its operands.
    Field-level theorems about ARBITRARY values satisfying the constraints a gadget emits (the universally
    quantified adversarial prover), for every prime p (with 2^(k+1) <= p where ranges matter).
-   Status: the arithmetic cores below are proved for all widths and all primes.  The link "the model's gadget
-   emits exactly the constraints the core assumes" is by the definitions in Model/Gadgets.v (read side by side)
-   and is exercised by the witness-space search on the R1CS captured from the real code; a Coq proof of that
-   link for every width is not done (C02 is _partial in that sense).  Operations for which the property is
-   FALSE are stated as _refuted with a concrete forged witness. *)
+   Status: the arithmetic cores below are proved for all widths and all primes, and they are LINKED to the model: the
+   C02_model_* theorems are about the constraint lists that the model's gadgets really emit ([run]), for every assignment w
+   of the variables (w 0 = 1: the constant-one wire) satisfying them, outside guarded regions, for every bitlength
+   (Proofs/Adv.v: a predicate transformer over the generator monad, sound for [run]; Proofs/AdvGadgets.v).
+   Not linked: the operator dispatch above the gadgets, guarded regions (there the constraints are v*w = y+d, g*d = 0: the
+   core C07_true_guard_transparent), divmod and what is built on it (refuted below).  The witness-space search on the
+   R1CS captured from the real code exercises all of them.  Operations for which the property is FALSE are stated as
+   _refuted with a concrete forged witness. *)
 From Coq Require Import ZArith List Znumtheory Lia.
 From PySnark.Base Require Import FieldZ.
 From PySnark.Model Require Import Lc Sym Gadgets Api Prog.
-From PySnark.Proofs Require Import Sound.
+From PySnark.Proofs Require Import Sound Meta Adv AdvGadgets.
 Import ListNotations.
 Open Scope Z_scope.
 
@@ -83,6 +86,47 @@ Theorem C02_bitop_with_int_refuted :
   cons (run OAnd) = [] /\ cons (run OOr) = [] /\ cons (run OXor) = [] /\ kinds (run OAnd) = [Priv; Priv].
 Proof. vm_compute. repeat split; reflexivity. Qed.
 
+(* ---- the same for the constraints the MODEL emits ---- *)
+Section C02_model.
+Variable p : Z.
+Hypothesis Hp : prime p.
+Variable w : var -> Z.
+Hypothesis W0 : w 0 = 1.
+Variable c : cfg.
+Variable s : @Gadgets.gst p.
+Hypothesis G : guard s = None.
+Notation "a == b" := (feq p a b) (at level 70).
+Notation ew := (AdvGadgets.ew w).
+Notation sat cs := (Forall (holds (p:=p) w) (cons_of cs)).
+
+Theorem C02_model_mul : forall x y r s' cs, run (mul x y) s = (inl r, s', cs) -> sat cs -> ew r == ew x * ew y.
+Proof. exact (mul_forced w s). Qed.
+Theorem C02_model_eq : forall x y r s' cs, run (eq x y) s = (inl r, s', cs) -> sat cs -> (ew x == ew y -> ew r == 1) /\ (~ ew x == ew y -> ew r == 0).
+Proof. exact (eq_forced Hp w W0 s). Qed.
+Theorem C02_model_lt : forall x y r s' cs vx vy, run (lt c x y) s = (inl r, s', cs) -> sat cs ->
+  2 ^ (Z.of_nat (nbits c) + 1) <= p -> ew x == vx -> ew y == vy -> - 2 ^ Z.of_nat (nbits c) <= vy - vx - 1 < 2 ^ Z.of_nat (nbits c) ->
+  ew r == (if vx <? vy then 1 else 0).
+Proof. exact (lt_forced Hp w W0 c s G). Qed.
+Theorem C02_model_le : forall x y r s' cs vx vy, run (le c x y) s = (inl r, s', cs) -> sat cs ->
+  2 ^ (Z.of_nat (nbits c) + 1) <= p -> ew x == vx -> ew y == vy -> - 2 ^ Z.of_nat (nbits c) <= vy - vx < 2 ^ Z.of_nat (nbits c) ->
+  ew r == (if vx <=? vy then 1 else 0).
+Proof. exact (le_forced Hp w W0 c s G). Qed.
+Theorem C02_model_sign : forall x k r s' cs, run (check_positive x k) s = (inl r, s', cs) -> sat cs ->
+  (ew r == 1 /\ exists v, 0 <= v < 2 ^ Z.of_nat k /\ ew x == v) \/ (ew r == 0 /\ exists v, - 2 ^ Z.of_nat k <= v < 0 /\ ew x == v).
+Proof. exact (check_positive_forced Hp w W0 s G). Qed.
+Theorem C02_model_to_bits : forall x k bs s' cs, run (to_bits x k) s = (inl bs, s', cs) -> sat cs ->
+  length bs = k /\ Forall (fun b => Sound.isbit p (ew b)) bs /\ ew x == wsum (map ew bs) 0 /\ exists v, 0 <= v < 2 ^ Z.of_nat k /\ ew x == v.
+Proof. exact (to_bits_forced Hp w W0 s G). Qed.
+Theorem C02_model_select : forall cnd t f r s' cs, run (ite_lc cnd t f) s = (inl r, s', cs) -> sat cs -> Sound.isbit p (ew cnd) ->
+  (ew cnd == 1 /\ ew r == ew t) \/ (ew cnd == 0 /\ ew r == ew f).
+Proof. exact (select_forced Hp w s). Qed.
+Theorem C02_model_truediv : forall x y r s' cs, run (truediv x y) s = (inl r, s', cs) -> sat cs -> ~ ew y == 0 -> ew y * ew r == ew x.
+Proof. exact (truediv_forced w s G). Qed.
+End C02_model.
+
+Print Assumptions C02_model_lt.
+Print Assumptions C02_model_eq.
+Print Assumptions C02_model_to_bits.
 Print Assumptions C02_mul.
 Print Assumptions C02_truediv.
 Print Assumptions C02_check_zero.
